@@ -42,6 +42,7 @@ class C10(Prop):
         "Pfb.C10.C10_noncode",
         "Pfb.C10.normalize_lossless",
         "Pfb.C10.normalize_node_untouched",
+        "Pfb.C10.C10_statements_keep_nodes",
         "Pfb.C10.wellPlacedB_sound",
         "Pfb.slice_joined",
         "Pfb.slice_append",
